@@ -233,63 +233,99 @@ var subC02Stale = core.NewSub("C02/overwritten-operand", func(w *core.Worker, c 
 			return core.Failf("%s on %s: %x want %x", r, c.Old.Enc, g, want)
 		}
 	}
+	// Copies taken after the first use and before the overwrite: v stays as it is, v2 is overwritten
+	// like q. Whatever a tree hangs on a Point (a memo behind a pointer, say) is shared by such copies;
+	// the un-mutated copy must go on behaving as Old after its siblings were overwritten and used again.
+	v := new(edwards25519.Point).Set(q)
+	v2 := new(edwards25519.Point).Set(q)
 	// overwrite q so that it now holds New
 	B := ref.Base()
 	one := mkScalar(big.NewInt(1))
 	src := c.New.point()
-	switch c.Writer {
-	case "Set":
-		q.Set(src)
-	case "SetBytes":
-		e := ref.Encode(nm)
-		if _, err := q.SetBytes(e[:]); err != nil {
-			return core.Failf("SetBytes rejected a valid encoding")
+	var werr *core.Fail
+	overwrite := func(q *edwards25519.Point) {
+		switch c.Writer {
+		case "Set":
+			q.Set(src)
+		case "SetBytes":
+			e := ref.Encode(nm)
+			if _, err := q.SetBytes(e[:]); err != nil {
+				werr = core.Failf("SetBytes rejected a valid encoding")
+				return
+			}
+		case "SetExtendedCoordinates":
+			X, Y, Z, T := src.ExtendedCoordinates()
+			if _, err := q.SetExtendedCoordinates(X, Y, Z, T); err != nil {
+				werr = core.Failf("SetExtendedCoordinates rejected valid coordinates")
+				return
+			}
+		case "SetExtendedCoordinates-scaled": // the SAME point as before, in another representation
+			nm = om
+			X, Y, Z, T := q.ExtendedCoordinates()
+			two := new(field.Element).Add(new(field.Element).One(), new(field.Element).One())
+			X.Multiply(X, two)
+			Y.Multiply(Y, two)
+			Z.Multiply(Z, two)
+			T.Multiply(T, two)
+			if _, err := q.SetExtendedCoordinates(X, Y, Z, T); err != nil {
+				werr = core.Failf("SetExtendedCoordinates rejected scaled coordinates")
+				return
+			}
+		case "Negate":
+			q.Negate(alpha.MakePoint(ref.Neg(nm), c.New.Form))
+		case "Negate-self":
+			nm = ref.Neg(om)
+			q.Negate(q)
+		case "Add":
+			q.Add(alpha.MakePoint(ref.Sub(nm, B), c.New.Form), alpha.MakePoint(B, 3))
+		case "Subtract":
+			q.Subtract(alpha.MakePoint(ref.Add(nm, B), c.New.Form), alpha.MakePoint(B, 5))
+		case "MultByCofactor":
+			nm = ref.Mul(big.NewInt(8), nm)
+			q.MultByCofactor(src)
+		case "ScalarMult":
+			q.ScalarMult(one, src)
+		case "ScalarBaseMult":
+			nm = B
+			q.ScalarBaseMult(one)
+		case "VarTimeDoubleScalarBaseMult":
+			q.VarTimeDoubleScalarBaseMult(one, src, edwards25519.NewScalar())
+		case "MultiScalarMult":
+			q.MultiScalarMult([]*edwards25519.Scalar{one}, []*edwards25519.Point{src})
+		case "VarTimeMultiScalarMult":
+			q.VarTimeMultiScalarMult([]*edwards25519.Scalar{one}, []*edwards25519.Point{src})
 		}
-	case "SetExtendedCoordinates":
-		X, Y, Z, T := src.ExtendedCoordinates()
-		if _, err := q.SetExtendedCoordinates(X, Y, Z, T); err != nil {
-			return core.Failf("SetExtendedCoordinates rejected valid coordinates")
-		}
-	case "SetExtendedCoordinates-scaled": // the SAME point as before, in another representation
-		nm = om
-		X, Y, Z, T := q.ExtendedCoordinates()
-		two := new(field.Element).Add(new(field.Element).One(), new(field.Element).One())
-		X.Multiply(X, two)
-		Y.Multiply(Y, two)
-		Z.Multiply(Z, two)
-		T.Multiply(T, two)
-		if _, err := q.SetExtendedCoordinates(X, Y, Z, T); err != nil {
-			return core.Failf("SetExtendedCoordinates rejected scaled coordinates")
-		}
-	case "Negate":
-		q.Negate(alpha.MakePoint(ref.Neg(nm), c.New.Form))
-	case "Negate-self":
-		nm = ref.Neg(om)
-		q.Negate(q)
-	case "Add":
-		q.Add(alpha.MakePoint(ref.Sub(nm, B), c.New.Form), alpha.MakePoint(B, 3))
-	case "Subtract":
-		q.Subtract(alpha.MakePoint(ref.Add(nm, B), c.New.Form), alpha.MakePoint(B, 5))
-	case "MultByCofactor":
-		nm = ref.Mul(big.NewInt(8), nm)
-		q.MultByCofactor(src)
-	case "ScalarMult":
-		q.ScalarMult(one, src)
-	case "ScalarBaseMult":
-		nm = B
-		q.ScalarBaseMult(one)
-	case "VarTimeDoubleScalarBaseMult":
-		q.VarTimeDoubleScalarBaseMult(one, src, edwards25519.NewScalar())
-	case "MultiScalarMult":
-		q.MultiScalarMult([]*edwards25519.Scalar{one}, []*edwards25519.Point{src})
-	case "VarTimeMultiScalarMult":
-		q.VarTimeMultiScalarMult([]*edwards25519.Scalar{one}, []*edwards25519.Point{src})
+	}
+	overwrite(q)
+	if werr != nil {
+		return werr
 	}
 	g, want := staleRead(c.Reader, q, nm)
 	if !bytes.Equal(g, want) {
 		return core.Failf("%s on a variable that held %s, was used as an operand, and was then overwritten by %s with %s: %x want %x", c.Reader, c.Old.Enc, c.Writer, fmtPt(nm), g, want)
 	}
 	w.Distinct("nontrivial:results", g)
+	// second sibling overwritten the same way; then every reader on both overwritten variables
+	// (refilling whatever they memoise), then every reader on the untouched copy
+	nmq := nm
+	nm = c.New.model()
+	overwrite(v2)
+	if werr != nil {
+		return werr
+	}
+	for _, r := range staleReaders {
+		if g, want := staleRead(r, q, nmq); !bytes.Equal(g, want) {
+			return core.Failf("%s (second round) on the variable overwritten by %s with %s: %x want %x", r, c.Writer, fmtPt(nmq), g, want)
+		}
+		if g, want := staleRead(r, v2, nm); !bytes.Equal(g, want) {
+			return core.Failf("%s on a copy (Set) of a used variable, overwritten by %s with %s: %x want %x", r, c.Writer, fmtPt(nm), g, want)
+		}
+	}
+	for _, r := range staleReaders {
+		if g, want := staleRead(r, v, om); !bytes.Equal(g, want) {
+			return core.Failf("%s on a copy (Set) of %s taken after the original had been used as an operand: after the original and a sibling copy were overwritten by %s and used again, the untouched copy no longer behaves as %s: %x want %x", r, c.Old.Enc, c.Writer, c.Old.Enc, g, want)
+		}
+	}
 	return nil
 })
 
